@@ -47,6 +47,7 @@ type c17LLStep struct {
 	Held    int64   `json:"held"`    // acceptors inside the inner Accept (they hold a permit)
 	Open    []int64 `json:"open"`    // ids of accepted connections not yet closed (sorted)
 	Blocked int64   `json:"blocked"` // acceptors that have not been granted a permit
+	Shr     int64   `json:"shr"`     // shrink goroutines of SetMaxConnection still queued at the semaphore
 	Panics  int64   `json:"panics"`  // panics out of Close
 	Dropped int64   `json:"dropped"` // inner connections closed although the harness never closed them
 }
@@ -135,6 +136,7 @@ type c17LLRun struct {
 	closed  map[int64]bool // closed by the harness at least once
 	offers  []c17Item
 	panics  int64
+	apanics int64 // panics out of Accept (its release on an inner error)
 	desync  bool
 	wg      sync.WaitGroup
 }
@@ -205,7 +207,8 @@ func (r *c17LLRun) settle() {
 
 func (r *c17LLRun) step() c17LLStep {
 	st := c17LLStep{Cur: r.snap.Cur, Real: r.snap.Real, Wq: r.snap.Waiters, Held: r.holders(),
-		Blocked: r.started - atomic.LoadInt64(&r.inner.calls), Panics: r.panics, Open: []int64{}}
+		Blocked: r.started - atomic.LoadInt64(&r.inner.calls), Panics: r.panics + atomic.LoadInt64(&r.apanics), Open: []int64{},
+		Shr: int64(bytes.Count(r.shadow, []byte{'S'}))}
 	r.mu.Lock()
 	for id := range r.conns {
 		if !r.closed[id] {
@@ -238,7 +241,17 @@ func c17LLExec(in c17LLIn) (obs c17LLObs) {
 			r.wg.Add(1)
 			go func() {
 				defer r.wg.Done()
-				c, err := r.ll.Accept()
+				var c net.Conn
+				var err error
+				func() {
+					defer func() {
+						if rec := recover(); rec != nil {
+							atomic.AddInt64(&r.apanics, 1)
+							err = fmt.Errorf("c17: Accept panicked: %v", rec)
+						}
+					}()
+					c, err = r.ll.Accept()
+				}()
 				if err != nil {
 					atomic.AddInt64(&r.retErr, 1)
 					return
